@@ -1190,7 +1190,8 @@ def paths_part(ctx: vlib.Ctx, proofs_ok: bool):
             ctx.hist("path_winner_node", "builtin" if w is None else f"node{node}")
             ctx.count(("path", case["entry"], repr(case["type"]), tuple(case["links"]), tuple(case["supports"]),
                        tuple(sorted(case["slots"].items())), d), nontrivial=bool(case["slots"]))
-            coq_cases.append(cp.coq_case(case, d, obs))
+            coq_cases.append(cp.coq_case(case, d, obs, res.get("vals")))
+            ctx.hist("path_valuations", "real classes" if "vals" in res else "stand-ins: " + res.get("vals_error", res.get("class_error", "?"))[:40])
             descr.append((case, d, obs))
             if obs != exp:
                 ctx.fail(f"position precedence: {case['entry']} {d} type={case['type']} links={case['links']} "
